@@ -539,22 +539,44 @@ package storage
 //@   modifies storeState, openStores
 //@   ensures openStores == old(openStores) - 1
 
+// ---- value validation (C08) ----
+
+//@ func (f *FieldDef) Validate(val interface{}) error
+//@   props C08 C14 C18
+//@   pure
+//@   requires f.DataType == TypeInt || f.DataType == TypeBigInt || f.DataType == TypeVarchar || f.DataType == TypeBoolean
+//@   ensures[int; C08] f.DataType == TypeInt ==> ((result == nil) <==> (typeof(val) == typ(int64) && -2147483648 <= val.(int64) && val.(int64) <= 2147483647))
+//@   ensures[int.range; C08] f.DataType == TypeInt && typeof(val) == typ(int64) && (val.(int64) < -2147483648 || val.(int64) > 2147483647) ==> result == ErrIntOutOfRange
+//@   ensures[bigint; C08] f.DataType == TypeBigInt ==> ((result == nil) <==> typeof(val) == typ(int64))
+//@   ensures[varchar; C08] f.DataType == TypeVarchar ==> ((result == nil) <==> typeof(val) == typ(string))
+//@   ensures[bool; C08] f.DataType == TypeBoolean ==> ((result == nil) <==> typeof(val) == typ(bool))
+//@   ensures[mismatch; C08] result != nil && result != ErrIntOutOfRange ==> result == ErrTypeMismatch
+
 // ---- scans and catalog lookups (C01 C02 C14) ----
 
 //@ axiom scanActions: KeepScanning == true && StopScanning == false
 
 //@ func (r *Tuple) Decode(buf *bytes.Buffer) error
-//@   props C08
-//@   trusted
-//@   requires r.Relation != nil && r.Vals != nil
-//@   modifies mapof(r.Vals), storeState
+//@   props C08 C18
+//@   requires schemaOK(r.Relation) && r.Vals != nil && buf != nil
+//@   modifies mapof(r.Vals), bufver(buf), storeState
+
+//@ spec pred kindOK(t DataType) { t == TypeInt || t == TypeBigInt || t == TypeVarchar || t == TypeBoolean }
+//@ spec pred schemaOK(r *Relation) { r != nil && forall i int :: 0 <= i && i < len(r.Fields) ==> kindOK(r.Fields[i].DataType) }
+//@ spec pred valueOK(t DataType, val any) { val == nil ||
+//@        (t == TypeInt ==> typeof(val) == typ(int64) && -2147483648 <= val.(int64) && val.(int64) <= 2147483647) &&
+//@        (t == TypeBigInt ==> typeof(val) == typ(int64)) && (t == TypeVarchar ==> typeof(val) == typ(string)) && (t == TypeBoolean ==> typeof(val) == typ(bool)) }
+//@ axiom catalogSchemas: schemaOK(&pageTableSchema) && schemaOK(&schemaTableSchema)
 
 //@ func (r *Tuple) Encode() (*bytes.Buffer, error)
-//@   props C08
-//@   trusted
-//@   requires r.Relation != nil
+//@   props C08 C14
+//@   requires schemaOK(r.Relation)
 //@   modifies storeState
-//@   ensures result0 != nil && fresh(result0)
+//@   ensures[buf] result0 != nil && fresh(result0)
+//@   ensures[refuse; C08 C14] err == nil ==> forall i int :: 0 <= i && i < len(r.Relation.Fields) ==>
+//@              valueOK(r.Relation.Fields[i].DataType, r.Vals[r.Relation.Fields[i].Name])
+//@   loop 1 invariant buf != nil && fresh(buf)
+//@   loop 1 invariant forall i int :: 0 <= i && i <= rangeindex ==> valueOK(r.Relation.Fields[i].DataType, r.Vals[r.Relation.Fields[i].Name])
 
 //@ func (b *BTree) scanRight(f func(kv *leafCell) (ScanAction, error)) error
 //@   props C01 C02 C11 C13
@@ -675,13 +697,13 @@ package storage
 //@   requires rsOK(rs)
 //@   modifies all(leafCell.pg), @cacheState, storeState
 //@   ensures rsOK(rs)
-//@   ensures err == nil ==> result0 != nil && fresh(result0)
+//@   ensures err == nil ==> result0 != nil && fresh(result0) && schemaOK(result0)
 
 //@ func (rs *RelationService) Update$1(cell *leafCell) (ScanAction, error)
 //@   props C01 C02 C04 C14 C13
 //@   requires fsLocked(rs.fs)
 //@   requires cell != nil && cell.pg != nil && leafShape(cell.pg)
-//@   requires rs != nil && rs.fs != nil && r != nil
+//@   requires rs != nil && rs.fs != nil && schemaOK(r)
 //@   requires len(cols) <= len(updateSrc)
 //@   assume[lsn-no-wrap] rs.fs._nextLSN < 18446744073709551615
 //@   invariant[L1; C02] rs.fs._nextLSN - len(walLogs) == old(rs.fs._nextLSN - len(walLogs))
